@@ -143,6 +143,9 @@ func (j recordJSON) ToNode() (ast.Node, error) {
 	// Build the pairs in key order: the decoded AST (and its Cedar text) must not depend on map iteration order.
 	for _, k := range slices.Sorted(maps.Keys(j)) {
 		v := j[k]
+		if v == nil {
+			return ast.Node{}, fmt.Errorf("error in record: missing value for key %q", k)
+		}
 		n, err := v.ToNode()
 		if err != nil {
 			return ast.Node{}, fmt.Errorf("error in record: %w", err)
